@@ -8,6 +8,8 @@ import asyncio
 import itertools
 import os
 import pathlib
+import shutil
+import tempfile
 import time
 
 import aioftp
@@ -25,6 +27,9 @@ LEVEL_TEXT = (
     "POSIX flavour: C02_get_paths_spec, C02_virt_normal, C02_virt_spec, C02_alias_same, C02_real_is_base_plus_virt, "
     "C02_confined, C02_up_clamps, C02_cwd_invariant, C02_cdup_is_parent are proved for every base path, every absolute "
     "working directory (even with '..'), every string and every CWD/CDUP history (Closed under the global context). "
+    "C02_names_are_kept, C02_decorated_dotdot_is_a_name_r/_l, C02_decorated_dotdot_not_folded: a segment folds only when it is exactly '..'; "
+    "'..' (or any text) decorated with blanks, TABs, NBSP or any other code point is a name and reaches the real and the virtual path "
+    "unchanged, for every base, working directory, decoration and sequence of names. "
     "Windows flavour of base_path: the property is refuted (C02_confined_win_refuted, C02_virt_is_location_win_refuted, "
     "C02_drive_escape_win_refuted; known finding F11) and proved for inputs whose resolved components contain neither "
     "backslash nor colon (C02_confined_win_partial). Histories on ONE control connection with several logins "
@@ -39,7 +44,8 @@ LEVEL_TEXT = (
     "on every run, that the source of get_paths reads nothing of the connection but user.base_path and current_directory and "
     "keeps no state, and that transfer workers use the path resolved when the command was handled. The models are hand-written; the "
     "tie is a bounded-exhaustive correspondence with the real pathlib and the real get_paths (about 3*10^5 cases per quick "
-    "run), histories on one reused Connection object, and wire-level sessions with re-logins on simnet with a recording backend."
+    "run), histories on one reused Connection object, wire-level sessions with re-logins on simnet with a recording backend, and wire-level "
+    "sessions with the stock PathIO on the real file system (confinement of every path handed to the backend after the kernel's '..' resolution)."
 )
 LEVEL_NOTE = (
     "Trusted: Coq kernel; extraction cross-checked with vm_compute; harness. Modelled, not verified: CPython 3.12 pathlib "
@@ -72,6 +78,27 @@ UNI_SEGS = ["a", "..", "", "\u2024\u2024", "\uff0e\uff0e", "\u2025", "\uff0e\uff
             "\uff41", "e\u0301", "\u00e9", "\u2215x"]
 UNI_COMBOS = [("posix", "/srv/ftp", "/"), ("win", "C:\\ftp", "/"), ("posix", "rel/base", "/a/b"), ("posix", "/srv/ftp", "/\u2024\u2024/\uff41"),
               ("posix", "/", "/a"), ("posix", "/srv/\uff41", "/"), ("win", "C:\\ftp\\sub", "/a"), ("win", "ftp\\rel", "/\uff0e\uff0e")]
+# '..' and '.' DECORATED with white space (blank, TAB, NBSP, EM SPACE, other str.isspace() code points) before / after: a segment
+# is '..' only when it is exactly '..' -- `".. "`, `" .."`, `"..\t"` are ordinary names and must reach the backend as they are
+# (no strip()/rstrip() between the '..' test and the backend, none before it either).  In inner positions: parse_command
+# strips the END of the command line, so over the wire the last segment never carries trailing white space.
+WS_SEGS = ["a", "..", ".", "", ".. ", " ..", "..\t", ". ", " .", "..\u00a0", "\u00a0..", " .. ", "..\u2003", "a ", " ", "..\x1f"]
+ALL_WS = [chr(c) for c in list(range(0x3000 + 1)) if chr(c).isspace() and chr(c) not in "\r\n"]  # 27 code points (CR/LF end a command line)
+WS_COMBOS = [("posix", "/srv/ftp", "/"), ("win", "C:\\ftp", "/"), ("posix", "/srv/ftp", "/a/b"), ("posix", "/srv/ftp ", "/.. /a "),
+             ("posix", "/", "/a"), ("posix", "rel/base", "/ .."), ("win", "C:\\ftp\\sub", "/a"), ("win", "ftp\\rel", "/..\t")]
+
+
+def ws_decorated():
+    """every white-space code point around '..' and '.', as first and as inner segment (2-3 segments)"""
+    out = []
+    for w in ALL_WS:
+        for seg in ("..", "."):
+            for d in (seg + w, w + seg, w + seg + w, seg + w + w):
+                out += [d + "/x", d + "/.", d + "/..", "a/" + d + "/x", "/" + d + "/" + d + "/x", d + "/" + d + "/../x"]
+        out += [w + "/x", "a" + w + "/../x"]
+    return sorted(set(out))
+
+
 PREFIXES = ["", "/", "//", "///"]
 CWDS = ["/", "/a", "/a/b", "/a/../b", "//x", "/..", "/a\\b/C:"]
 POSIX_BASES = ["/srv/ftp", "rel/base", ".", "/srv/../x", "", "/", "//srv/ftp"]
@@ -379,7 +406,8 @@ def stream_get_paths(ctx, xcheck, k=None, n_random=None, layer_mod=4, layer_offs
     for _ in range(n_random):
         flavour = rng.choice(["posix", "posix", "win"])
         base = rng.choice(POSIX_BASES if flavour == "posix" else WIN_BASES)
-        alpha = SEGS + UNI_SEGS[3:] if rng.random() < 0.3 else SEGS  # a third of the random paths mix in Unicode look-alikes
+        r_alpha = rng.random()  # a third of the random paths mix in Unicode look-alikes, a fifth white-space decorated '..' / '.'
+        alpha = SEGS + UNI_SEGS[3:] if r_alpha < 0.3 else SEGS + WS_SEGS[4:] + [".." + rng.choice(ALL_WS), rng.choice(ALL_WS) + "."] if r_alpha < 0.5 else SEGS
         cwd = "/" + "/".join(rng.choice(alpha[:4] + alpha[5:]) for _ in range(rng.randint(0, 4))) if rng.random() < 0.6 else rng.choice(CWDS)
         s = rng.choice(PREFIXES + ["", ""]) + "/".join(rng.choice(alpha) for _ in range(rng.randint(3, 7)))
         rnd.append((flavour, base, cwd, s))
@@ -393,17 +421,20 @@ def stream_get_paths(ctx, xcheck, k=None, n_random=None, layer_mod=4, layer_offs
     impl.close()
 
 
-def stream_unicode(ctx, xcheck, k=None, deadline=None):
+def stream_unicode(ctx, xcheck, k=None, deadline=None, segs=None, combos=None, extra=(), tag="unicode"):
     """get_paths on names made of compatibility look-alikes of '.', '..', '/', '\\', ':' and letters: bounded-exhaustive
-    over UNI_SEGS (k segments, 3 prefixes) x UNI_COMBOS; same comparison and oracle as stream_get_paths"""
+    over UNI_SEGS (k segments, 3 prefixes) x UNI_COMBOS; same comparison and oracle as stream_get_paths.
+    With segs=WS_SEGS / combos=WS_COMBOS / extra=ws_decorated(): the white-space decorated forms of '..' and '.' (tag "blanks")"""
     k = k or 3
+    segs = segs or UNI_SEGS
+    combos = combos or UNI_COMBOS
     impl = Impl()
-    strs = path_strings(k, UNI_SEGS, ["", "/", "//"])
-    shorter = path_strings(k - 1, UNI_SEGS, ["", "/", "//"])
+    strs = sorted(set(path_strings(k, segs, ["", "/", "//"])) | set(extra))
+    shorter = sorted(set(path_strings(k - 1, segs, ["", "/", "//"])) | set(extra))
     n = 0
-    for idx, (flavour, base, cwd) in enumerate(UNI_COMBOS):
+    for idx, (flavour, base, cwd) in enumerate(combos):
         if deadline is not None and time.time() > deadline:
-            ctx.notes.append(f"bounded search: unicode k={k} stopped after {idx} of {len(UNI_COMBOS)} (base, cwd) pairs")
+            ctx.notes.append(f"bounded search: {tag} k={k} stopped after {idx} of {len(combos)} (base, cwd) pairs")
             break
         full = deadline is not None or idx < (4 if k <= 3 else 2)  # the other pairs see the strings one segment shorter
         mine = strs if full else shorter
@@ -411,13 +442,23 @@ def stream_unicode(ctx, xcheck, k=None, deadline=None):
         out = ctx.model([(fn, [base, cwd, s]) for s in mine])
         for s, mo in zip(mine, out):
             ctx.case(("gpu", flavour, base, cwd, s))
-            check_get_paths(ctx, impl, flavour, base, cwd, s, mo, "get_paths_unicode")
+            check_get_paths(ctx, impl, flavour, base, cwd, s, mo, "get_paths_" + tag)
             if len(xcheck) < 96 and ctx.rng.random() < 0.0005:
                 xcheck.append((fn, [base, cwd, s], mo))
         n += len(mine)
-    ctx.count(f"get_paths_unicode_lookalikes_k{k}", n)
-    ctx.sample({"stream": "unicode", "flavour": "posix", "base": "/srv/ftp", "cwd": "/", "path": "\uff0e\uff0e\uff0fx/\u2024\u2024/a"})
+    if tag == "unicode":
+        ctx.count(f"get_paths_unicode_lookalikes_k{k}", n)
+        ctx.sample({"stream": "unicode", "flavour": "posix", "base": "/srv/ftp", "cwd": "/", "path": "\uff0e\uff0e\uff0fx/\u2024\u2024/a"})
+    else:
+        ctx.count(f"get_paths_whitespace_decorated_k{k}", n)
+        ctx.sample({"stream": "blanks", "flavour": "posix", "base": "/srv/ftp", "cwd": "/", "path": ".. /..\t/ ../outside.txt"})
     impl.close()
+
+
+def stream_blanks(ctx, xcheck, k=None, deadline=None):
+    """'..' / '.' decorated with white space: every string of <= k segments over WS_SEGS x 3 prefixes, plus every str.isspace()
+    code point around '..' and '.' in first and inner position, on WS_COMBOS (bases and working directories with such names too)"""
+    stream_unicode(ctx, xcheck, k=k, deadline=deadline, segs=WS_SEGS, combos=WS_COMBOS, extra=ws_decorated(), tag="blanks")
 
 
 def stream_normalize(ctx, xcheck):
@@ -483,7 +524,8 @@ def stream_histories(ctx, xcheck):
 #         [4,s] STOR/APPE | [5,s,ok] RNFR | [6,s,ok] RNTO            (ok = accepted by the decorators)
 SESS_POSIX_USERS = [("/srv/a", "/"), ("/srv/b", "/"), ("/srv/a", "/d"), ("/srv/a/d", "/"), ("rel/base", "/a/../b"), ("", "/"), ("/", "/srv/a"), ("/srv/b", "/a\\b/C:")]
 SESS_WIN_USERS = [("C:\\ftp", "/"), ("C:\\ftp\\sub", "/a"), ("ftp\\rel", "/")]
-SESS_ARGS = ["f", "/f", "d", "/d", "d/f", "../f", "..", "/", "", ".", "//f", "/d/../f", "a\\b", "C:x", "../../f", "g", "\uff0e\uff0e/f", "\u2024\u2024", "d/\uff0e\uff0e\uff0ff"]
+SESS_ARGS = ["f", "/f", "d", "/d", "d/f", "../f", "..", "/", "", ".", "//f", "/d/../f", "a\\b", "C:x", "../../f", "g", "\uff0e\uff0e/f", "\u2024\u2024", "d/\uff0e\uff0e\uff0ff",
+             ".. /f", "d/.. /f", "..\t/..\u00a0/f", " ../f", ". /..", ".. ", "d/ .. /../f"]
 
 
 _REPORTED = {}
@@ -726,17 +768,21 @@ WIRE_TREE = {
 }
 # login, password, base_path, home_path
 WIRE_USERS = [("alice", "a", "/alice", "/"), ("bob", "b", "/bob", "/d"), ("carol", "c", "alice/d", "/"), ("root", "r", "/", "/alice"), ("dave", "d", "/bob", "/")]
-WIRE_ARGS = ["f", "/f", "d", "/d", "d/g", "g", "../f", "..", "/", "", ".", "//f", "/d/../f", "x/f", "e", "new", "/d/new", "../../f", "/alice/f", "\uff0e\uff0e/f", "d/\u2024\u2024/f", "\uff0e\uff0e\uff0ff"]
+WIRE_ARGS = ["f", "/f", "d", "/d", "d/g", "g", "../f", "..", "/", "", ".", "//f", "/d/../f", "x/f", "e", "new", "/d/new", "../../f", "/alice/f", "\uff0e\uff0e/f", "d/\u2024\u2024/f", "\uff0e\uff0e\uff0ff",
+             # white-space decorated '..' / '.' in inner position (the end of a command line is stripped by parse_command)
+             ".. /f", "d/.. /f", ".. /.", "..\t/alice/f", " ../f", "..\u00a0/d/g", "d/.. /.. /f", ". /f", "/.. /bob/f"]
 PATH_VERBS = ["CWD", "MLST", "MKD", "RMD", "DELE", "RNFR", "RNTO", "LIST", "MLSD", "RETR", "STOR", "APPE"]
 DATA_VERBS = ("LIST", "MLSD", "RETR", "STOR", "APPE")
 
 
-def rec_factory(log):
-    class Rec(aioftp.MemoryPathIO):
+def rec_factory(log, parent=None):
+    parent = parent or aioftp.MemoryPathIO
+
+    class Rec(parent):
         pass
 
     def wrap(name):
-        orig = getattr(aioftp.MemoryPathIO, name)
+        orig = getattr(parent, name)
 
         async def f(self, *a, **k):
             log.append((name, [str(x) for x in a if isinstance(x, pathlib.PurePath)]))
@@ -746,7 +792,7 @@ def rec_factory(log):
 
     for n in ("exists", "is_dir", "is_file", "mkdir", "rmdir", "unlink", "stat", "_open", "rename"):
         setattr(Rec, n, wrap(n))
-    orig_list = aioftp.MemoryPathIO.list
+    orig_list = parent.list
 
     def lst(self, path):
         log.append(("list", [str(path)]))
@@ -756,16 +802,22 @@ def rec_factory(log):
     return Rec
 
 
-def run_wire(events):
+def run_wire(events, users=None, disk=False):
     """events: [(verb, arg, payload)] on ONE control connection of the real server (simnet, MemoryPathIO
-    wrapped by a recorder) -> per event dict(codes, lines, calls, bytes)"""
+    wrapped by a recorder) -> per event dict(codes, lines, calls, bytes).
+    disk=True: the stock aioftp.PathIO on the real file system (the users' base paths exist), wrapped by the same recorder"""
     log, obs = [], []
+    table = users or WIRE_USERS
 
     async def main(net):
-        users = [aioftp.User(l, p, base_path=b, home_path=h) for l, p, b, h in WIRE_USERS]
-        server = aioftp.Server(users, path_io_factory=aioftp.MemoryPathIO, wait_future_timeout=1)
-        server.path_io_factory.state = ftpsim.mem_state(WIRE_TREE)
-        server.path_io_factory.factory = rec_factory(log)
+        users = [aioftp.User(l, p, base_path=b, home_path=h) for l, p, b, h in table]
+        if disk:
+            server = aioftp.Server(users, path_io_factory=aioftp.PathIO, wait_future_timeout=1)
+            server.path_io_factory.factory = rec_factory(log, aioftp.PathIO)
+        else:
+            server = aioftp.Server(users, path_io_factory=aioftp.MemoryPathIO, wait_future_timeout=1)
+            server.path_io_factory.state = ftpsim.mem_state(WIRE_TREE)
+            server.path_io_factory.factory = rec_factory(log)
         await server.start("127.0.0.1", ftpsim.PORT)
         s = ftpsim.Session(net, server)
         await s.start()
@@ -779,7 +831,7 @@ def run_wire(events):
             obs.append(r)
             if r.get("ended"):
                 break
-        tree = ftpsim.final_tree(server, "memory")
+        tree = None if disk else ftpsim.final_tree(server, "memory")
         await server.close()
         return tree
 
@@ -787,10 +839,11 @@ def run_wire(events):
     return obs, tree
 
 
-def wire_oracle(events, obs):
+def wire_oracle(events, obs, users=None):
     """the property on the recorded backend calls, stated without the model: every path handed to the backend
     is base_path(current user) + normalize(cwd, arg) (or its parent for the STOR/APPE reachability probe, or a
     child for LIST/MLSD entries, or the recorded RNFR target as the rename source).  -> (problems, model events)"""
+    WIRE_USERS = users or globals()["WIRE_USERS"]
     by_login = {u[0]: u for u in WIRE_USERS}
     cur, logged, cwd = None, False, "/"
     rn = None  # (owner login, real path str)
@@ -1083,6 +1136,174 @@ def stream_deferred(ctx):
     ctx.count("deferred_transfer_sessions_150", n150)
 
 
+# ---- a backend that INTERPRETS '..': the stock PathIO on the real file system
+# MemoryPathIO looks components up by name ('..' is just a name nobody has), so a '..' that survives get_paths is only "not
+# found" there.  On the real file system the kernel resolves it.  Layout under a fresh temporary directory:
+#   top/            <- everything here but base/ is OUTSIDE (contents start with b"OUTSIDE")
+#   top/base/       <- alice's base_path; it contains directories literally named '.. ', '..<TAB>', ' ..', '. ', '..<NBSP>'
+#   top/base/pub/   <- bob's base_path (nested: alice's files are outside for bob)
+# so "RETR .. /f" has a legitimate answer (top/base/'.. '/f) that differs from the escape (top/f).
+REALFS_OUTSIDE = {"f": b"OUTSIDE-f", "outside.txt": b"OUTSIDE-outside.txt", "g": b"OUTSIDE-g", "x": {"f": b"OUTSIDE-x-f"}, "pub": {"f": b"OUTSIDE-pub-f"}}
+REALFS_BASE = {
+    "f": b"base-f", "g": b"base-g", "outside.txt": b"base-outside.txt",
+    ".. ": {"f": b"base-ddblank-f", "outside.txt": b"base-ddblank-outside", ".. ": {"f": b"base-ddblank-ddblank-f"}, "d": {}},
+    "..\t": {"f": b"base-ddtab-f"}, " ..": {"f": b"base-blankdd-f"}, ". ": {"f": b"base-dotblank-f"}, ".. ": {"f": b"base-ddnbsp-f"},
+    "d": {"g": b"base-d-g", ".. ": {"g": b"base-d-ddblank-g"}},
+    "pub": {"f": b"pub-f", "readme.txt": b"pub-readme", ".. ": {"f": b"pub-ddblank-f"}, "d": {}},
+}
+REALFS_ARGS = [".. /f", ".. /outside.txt", ".. /.. /f", ".. /.", "..\t/f", " ../f", ". /f", ".. /f", "d/.. /g", "pub/.. /.. /planted.txt", ".. /new",
+               ".. /d", "/.. /f", "d/.. /.. /f", ".. /x/f", "f", "pub/f", "../f", "..", "/", "d/g", "d/../f", "new", ".. /.. /.. /f", " .. /f", "..  /f", ".. /pub/f"]
+REALFS_VERBS = ["CWD", "MLST", "MKD", "RMD", "DELE", "RNFR", "RNTO", "LIST", "MLSD", "RETR", "STOR", "APPE", "RETR", "MLST", "CWD"]
+REALFS_CORPUS = [
+    [("USER", "alice", None), ("PASS", "a", None), ("PASV", "", None), (ftpsim.DATACONN, "", None), ("RETR", ".. /outside.txt", None),
+     ("CWD", ".. /.", None), ("PWD", "", None), ("DELE", ".. /f", None)],
+    [("USER", "alice", None), ("PASS", "a", None), ("PASV", "", None), (ftpsim.DATACONN, "", None), ("STOR", "pub/.. /.. /planted.txt", b"planted"),
+     ("MLST", ".. /.", None), ("MKD", "..\t/made", None)],
+    [("USER", "bob", "b"), ("PASS", "b", None), ("CWD", ".. /.", None), ("PWD", "", None), ("PASV", "", None), (ftpsim.DATACONN, "", None), ("RETR", "f", None),
+     ("RNFR", ".. /f", None), ("RNTO", "taken", None)],
+]
+REALFS_CORPUS[2][0] = ("USER", "bob", None)
+
+
+def disk_write(root, tree):
+    root.mkdir(parents=True, exist_ok=True)
+    for name, v in tree.items():
+        if isinstance(v, dict):
+            disk_write(root / name, v)
+        else:
+            (root / name).write_bytes(v)
+
+
+def disk_snapshot(root, skip=None):
+    """{relative path: bytes | None for a directory}, without the subtree `skip`"""
+    out = {}
+    for dirpath, dirs, files in os.walk(root):
+        d = pathlib.Path(dirpath)
+        if skip is not None and d == skip:
+            dirs[:] = []
+            continue
+        out[str(d.relative_to(root))] = None
+        for f in files:
+            out[str((d / f).relative_to(root))] = (d / f).read_bytes()
+    return out
+
+
+def run_realfs(events):
+    """the wire history on the real server with the stock PathIO over a fresh directory tree -> (problems, obs).
+    Oracles, all stated without the model, on what the backend is actually handed and on what the file system shows:
+    * wire_oracle: every recorded path = base_path(current user) + normalize(cwd, arg) (parent probe / listing entries as there);
+    * realfs-backend-path-escapes: os.path.normpath of every recorded path (what the kernel makes of it; no symlinks in the tree)
+      is base_path(current user) or below it, and the path has no '..' component;
+    * realfs-outside-content-delivered: no transfer or reply carries bytes of a file outside the base;
+    * realfs-outside-modified: the tree outside alice's base is byte-identical afterwards; a session of bob alone also leaves
+      alice's files outside top/base/pub alone."""
+    tmp = pathlib.Path(tempfile.mkdtemp(prefix="c02fs-"))
+    try:
+        top = tmp / "top"
+        disk_write(top, REALFS_OUTSIDE)
+        disk_write(top / "base", REALFS_BASE)
+        users = [("alice", "a", str(top / "base"), "/"), ("bob", "b", str(top / "base" / "pub"), "/")]
+        only_bob = all(a == "bob" for v, a, _ in events if v == "USER")
+        guard = top / "base" / "pub" if only_bob else top / "base"
+        before = disk_snapshot(top, skip=guard)
+        obs, _ = run_wire(events, users=users, disk=True)
+        problems, _ = wire_oracle(events, obs, users=users)
+        problems = [(k, key, d.replace(str(tmp), "<tmp>")) for k, key, d in problems]
+        by_login = {u[0]: u for u in users}
+        cur = None
+        extra = []
+        for k, ((verb, arg, _), ob) in enumerate(zip(events, obs)):
+            if verb == "USER":
+                cur = by_login.get(arg) if "331" in ob["codes"] else None
+            for name, args in ob.get("calls", []):
+                for p in args:
+                    base = cur[2] if cur else str(top / "base")
+                    np_ = os.path.normpath(p)
+                    if verb in ("STOR", "APPE") and name == "is_dir" and p == str(pathlib.PurePosixPath(base).parent):
+                        continue  # F19 (parent probe of the virtual root): wire_oracle reports it under its own key, or as a foreign path
+                    if ".." in pathlib.PurePosixPath(p).parts or not (np_ == base or np_.startswith(base + "/")):
+                        extra.append((k, "realfs-backend-path-escapes", f"{verb} {arg!r} as {cur[0] if cur else None}: PathIO.{name}({p.replace(str(tmp), '<tmp>')!r}) "
+                                      f"is resolved by the file system to {np_.replace(str(tmp), '<tmp>')!r}, outside base_path {base.replace(str(tmp), '<tmp>')!r}"))
+            blob = (ob.get("bytes") or b"") + "\n".join(ob.get("lines", [])).encode()
+            if b"OUTSIDE" in blob:
+                extra.append((k, "realfs-outside-content-delivered", f"{verb} {arg!r} delivered {blob[:60]!r}: the content of a file outside base_path"))
+        after = disk_snapshot(top, skip=guard)
+        if after != before:
+            diff = sorted(k for k in set(before) | set(after) if before.get(k, 0) != after.get(k, 0))
+            extra.append((len(events) - 1, "realfs-outside-modified", f"the file system outside base_path changed: {diff[:4]}"))
+        return extra + problems, obs
+    finally:
+        shutil.rmtree(tmp, ignore_errors=True)
+
+
+def gen_realfs_history(rng):
+    login = rng.choice(["alice", "alice", "bob"])
+    ev = [("USER", login, None), ("PASS", login[0], None)]
+    for _ in range(rng.randint(3, 9)):
+        r = rng.random()
+        if r < 0.1:
+            ev.append((rng.choice(["PWD", "CDUP"]), "", None))
+            continue
+        if r < 0.17:
+            login = rng.choice(["alice", "bob"])
+            ev += [("USER", login, None), ("PASS", login[0], None)]
+            continue
+        verb, arg = rng.choice(REALFS_VERBS), rng.choice(REALFS_ARGS)
+        if verb in DATA_VERBS:
+            ev += [("PASV", "", None), (ftpsim.DATACONN, "", None)]
+        ev.append((verb, arg, b"up-" + arg.encode() if verb in ("STOR", "APPE") else None))
+    return ev
+
+
+_REALFS_KEYS = set()
+
+
+def check_realfs(ctx, events):
+    ctx.case(("realfs", repr(events)))
+    ctx.traces_impl += 1
+    hist = [[v, a, p.decode() if p else None] for v, a, p in events]
+    try:
+        problems, _ = run_realfs(events)
+    except Exception as e:  # noqa: BLE001 - observation
+        ctx.violation(f"real-file-system session could not be driven: {e!r}", {"key": "wire-driver-error", "realfs": True, "events": hist})
+        return
+    seen = set()
+    for k, key, detail in problems:
+        if key in seen:
+            continue
+        seen.add(key)
+        # one replay per key, and at most three keys with a replay from this stream (core writes the first five replay files:
+        # two are left to the function-level streams, whose replay is the minimal (base, cwd, path) triple); the rest is counted
+        fresh = key not in _REPORTED
+        if fresh and len(_REALFS_KEYS) >= 3 and key not in _REALFS_KEYS:
+            ctx.count("further_violations_" + key)
+            continue
+        _REALFS_KEYS.add(key)
+        report(ctx, f"real file system (stock PathIO), step {k}: {detail}", {"key": key, "realfs": True, "events": hist, "step": k}, per_key=1)
+
+
+def stream_realfs(ctx):
+    rng = ctx.rng
+    n = 400 if ctx.tier == "thorough" else 45
+    hs = [list(h) for h in REALFS_CORPUS]
+    # every verb once on the plain escape shapes, as alice (base top/base) and as bob (nested base)
+    for login in ("alice", "bob"):
+        for arg in (".. /f", "..\t/f", ".. /.. /f") if ctx.tier != "thorough" else REALFS_ARGS[:15]:
+            h = [("USER", login, None), ("PASS", login[0], None)]
+            for verb in ("MLST", "RETR", "LIST", "STOR", "MKD", "DELE", "CWD"):
+                if verb in DATA_VERBS:
+                    h += [("PASV", "", None), (ftpsim.DATACONN, "", None)]
+                h.append((verb, arg if verb != "MKD" else arg + "2", b"up" if verb == "STOR" else None))
+            h.append(("PWD", "", None))
+            hs.append(h)
+    hs += [gen_realfs_history(rng) for _ in range(n)]
+    for h in hs:
+        check_realfs(ctx, h)
+    ctx.count("realfs_sessions", len(hs))
+    ctx.count("realfs_events", sum(len(h) for h in hs))
+    ctx.sample({"stream": "realfs", "events": [[v, a] for v, a, _ in hs[0]]})
+
+
 # ---------------------------------------------------------------- known findings
 WITNESSES = [
     # (finding key, flavour, base, cwd, path)
@@ -1143,7 +1364,16 @@ def known(ctx):
 # ---------------------------------------------------------------- entry points
 def correspondence(ctx):
     ctx.extra["rule"] = (
-        "streams: (unicode) every string of <= 3 segments (4 thorough) over 16 segments made of compatibility look-alikes of "
+        "streams: (blanks) '..' and '.' decorated with white space before/after (blank, TAB, NBSP, EM SPACE, US; 16 segments, every string of "
+        "<= 3 segments (4 thorough) x 3 prefixes, plus each of the 27 str.isspace() code points around '..' / '.' in first and inner "
+        "position) on 8 (flavour, base, cwd) pairs whose bases / working directories carry such names too; the same forms are mixed "
+        "into the random long paths and the session / wire argument lists (inner positions over the wire: parse_command strips the end "
+        "of a command line); (realfs) wire sessions on the real server with the STOCK PathIO over a fresh directory tree on the real file "
+        "system (a backend that interprets '..'), base directories holding directories literally named '.. ', '..<TAB>', ' ..', '. ', "
+        "'..<NBSP>' and same-named files next to the base: every path handed to PathIO must normalise (os.path.normpath) to a location "
+        "inside base_path(current user) and contain no '..', nothing delivered may carry bytes of an outside file, the tree outside the "
+        "base must be byte-identical afterwards, and the wire oracle (path = base + normalize(cwd, arg)) holds; "
+        "(unicode) every string of <= 3 segments (4 thorough) over 16 segments made of compatibility look-alikes of "
         "'.', '..', '/', '\\', ':' and letters (U+2024 U+FF0E U+2025 U+FE52 U+FF0F U+FF3C U+FF1A U+FF41, decomposed/composed e-acute, "
         "U+2215) x 3 prefixes on 8 (flavour, base, cwd) pairs; (deferred, inside wire) transfers answered 150 whose data connection "
         "arrives after a CWD / CDUP / re-login: the backend path must be base(user at the command) + normalize(cwd at the command, arg); "
@@ -1170,6 +1400,8 @@ def correspondence(ctx):
     def want(name):
         return not only or name in only
 
+    if want("realfs"):
+        stream_realfs(ctx)
     if want("pathlib"):
         stream_pathlib(ctx, xcheck)
     if want("winpath"):
@@ -1178,6 +1410,8 @@ def correspondence(ctx):
         stream_normalize(ctx, xcheck)
     if want("unicode"):
         stream_unicode(ctx, xcheck, k=4 if ctx.tier == "thorough" else 3)
+    if want("blanks"):
+        stream_blanks(ctx, xcheck, k=4 if ctx.tier == "thorough" else 3)
     if want("get_paths"):
         stream_get_paths(ctx, xcheck)
     if want("histories"):
@@ -1199,14 +1433,16 @@ SEARCH_BUDGET_S = 180
 def search(ctx):
     """the oracle already ran on every real output; when an obligation or the tie is broken and no failing input
     was found yet, widen the exhaustive layers -- within SEARCH_BUDGET_S seconds of wall time, so that the check
-    always ends with a verdict: look-alike names one segment deeper, the part of the 3-segment layer the quick
+    always ends with a verdict: look-alike names and white-space decorated '..' one segment deeper, the part of the 3-segment layer the quick
     run spread elsewhere, a 32nd of the 4-segment layer, more random long paths"""
     if ctx.violations or ctx.tier == "thorough" or ctx.exe is None:
         return
     xcheck = []
-    third = SEARCH_BUDGET_S / 3
+    third = SEARCH_BUDGET_S / 4
     try:
         stream_unicode(ctx, xcheck, k=4, deadline=time.time() + third)
+        if not ctx.violations:
+            stream_blanks(ctx, xcheck, k=4, deadline=time.time() + third)
         if not ctx.violations:
             stream_get_paths(ctx, xcheck, k=3, n_random=8000, layer_offsets=(1, 2), skip_short=True, deadline=time.time() + third)
         if not ctx.violations:
@@ -1235,6 +1471,14 @@ def replay(ctx, data):
         for key, detail in bad:
             print("oracle:", key, detail)
         return not bad
+    if r.get("realfs"):
+        events = [(v, a, p.encode() if p is not None else None) for v, a, p in r["events"]]
+        problems, obs = run_realfs(events)
+        for (v, a, _), ob in zip(events, obs):
+            print(v, repr(a), ob["codes"], [(n, [x[x.find("/top"):] for x in ps]) for n, ps in ob["calls"]], ob.get("bytes"))
+        for k, key, detail in problems:
+            print("oracle: step", k, key, detail)
+        return not problems
     if r.get("wire"):
         events = [(v, a, p.encode() if p is not None else None) for v, a, p in r["events"]]
         obs, tree = run_wire(events)
